@@ -8,4 +8,5 @@ var verifHarnesses = map[string]func(){
 	"VerifC17Concurrent": VerifC17Concurrent,
 	"VerifC15Load": VerifC15Load,
 	"VerifC19History": VerifC19History,
+	"VerifC05Crash": VerifC05Crash,
 }
